@@ -408,6 +408,7 @@ func trieDepth(keys [][]byte) int {
 const findingRules = "a failing case (S violation, panic or unexpected error) of mode PID can only be a finding if the IDENTICAL history (same operations, backend, write-log option; for pair/twin violations both members) re-run in a fresh database with ample capacities node_cap=5000, value_cap=16777216 is clean; if that re-run fails too the failure is an ordinary violation reported on the ample-capacity variant (note: fails with ample capacities too) and no finding is emitted. With a clean ample re-run, rules tried in this order: " +
 	"(1) PID:node-capacity-not-above-path-depth iff 0 < node_cap <= D+1, D = the maximum so far of the number of internal nodes on a root-to-leaf path of the compressed binary trie over the tree-level reference key set; " +
 	"(2) PID:embedded-leaf-evicted-under-dirty-internal-node iff 0 < value_cap < 16777216 and, at or before the first failure, either mkvs.VerifScan reported DirtyNodeWithEvictedLeaf > 0 or the tree-level reference key set contained a key that is a proper byte-prefix of another key (the empty key with any other key included); " +
+	"(0, mode c02 fault twins only, tried before the others) C02:failed-remove-drops-child-pointers iff a fault armed on a remove fired before the failure and the same twin with the faults on removes taken out (faults on inserts kept) is clean; " +
 	"(3) otherwise it is an ordinary violation. A pair/twin violation is attributed to the finding of a member that satisfies (1) or (2) with its flags over its whole run."
 
 const (
